@@ -54,7 +54,9 @@ Values ==
     StringLong |-> << <<StrSp(<<97, Q, 98>>), StrSp(S("c;--"))>> >>,
     Float |-> << <<S("7301.5"), S("0.25")>>, <<S("1e3"), S("2.5E-2")>> >>,
     String |-> << <<StrSp(S("q7x")), StrSp(S("zz9"))>>, <<StrSp(<<97, Q, 98>>), StrSp(S("c;--"))>>, <<StrSp(S("%")), StrSp(S("_"))>>,
-                  <<StrSp(<<>>), StrSp(S("x"))>>, <<StrSp(S("' OR '1'='1")), StrSp(<<92, 34>>)>>, <<StrSp(S("plain")), StrSp(S("with%wild"))>> >>,
+                  <<StrSp(<<>>), StrSp(S("x"))>>, <<StrSp(S("' OR '1'='1")), StrSp(<<92, 34>>)>>, <<StrSp(S("plain")), StrSp(S("with%wild"))>>,
+                  \* both need LIKE escaping, and they contain the usual escape characters themselves
+                  <<StrSp(S("a/b%")), StrSp(S("50%"))>>, <<StrSp(<<47, 95>>), StrSp(<<92, 37, 126>>)>> >>,
     Date |-> << <<S("2031-07-03"), S("1999-12-31")>> >>,
     DateTime |-> << <<S("2031-07-03T07:31:03Z"), S("1999-12-31T23:59:59Z")>>, <<S("2031-07-03T07:31"), S("2000-01-01T00:00:00+01:00")>> >>,
     Time |-> << <<S("07:31:03"), S("23:59:59.5")>> >>,
